@@ -230,9 +230,24 @@ func vfValid(kind int) {
 	if zzvf.Tier() == 1 {
 		nvec, nbuf = len(vfChunkVectors), len(vfBufSizes)
 	}
-	zzvf.Bound("chunk_vectors", nvec)
+	var sizes []int
+	bufSizes := vfBufSizes
+	if kind == 0 {
+		// unsigned reader: systematic family – up to 3 chunks of 1..3 bytes (thorough: 1..4), every buffer size 1..6 and 4096
+		maxc := 3 + zzvf.Tier()
+		zzvf.Bound("chunks_max", 3)
+		zzvf.Bound("chunk_size_max", maxc)
+		nch := zzvf.Choice("chunks", 4)
+		for i := 0; i < nch; i++ {
+			sizes = append(sizes, 1+zzvf.Choice("chunk_size", maxc))
+		}
+		bufSizes = []int{4096, 1, 2, 3, 4, 5, 6}
+		nbuf = len(bufSizes)
+	} else {
+		zzvf.Bound("chunk_vectors", nvec)
+		sizes = vfChunkVectors[zzvf.Choice("chunk_vector", nvec)]
+	}
 	zzvf.Bound("buffer_sizes", nbuf)
-	sizes := vfChunkVectors[zzvf.Choice("chunk_vector", nvec)]
 	nct := 1
 	if zzvf.Tier() == 1 && kind != 1 {
 		nct = len(vfTrailers)
@@ -241,7 +256,7 @@ func vfValid(kind int) {
 	payload := zzvf.BytesN("payload", vfSum(sizes))
 	stream := vfBuildStream(kind, payload, sizes, ct)
 	zzvf.Bound("stream_len", len(stream))
-	bufSize := vfBufSizes[zzvf.Choice("buf_size", nbuf)]
+	bufSize := bufSizes[zzvf.Choice("buf_size", nbuf)]
 	under := &vfFragReader{data: stream}
 	// every single cut position; thorough: every pair for the short streams
 	c1 := zzvf.Choice("cut1", len(stream)+1)
